@@ -632,7 +632,22 @@ PRE_RULES = [
     Sub(r"\bfor\s*\(([^;(){}]+);\s*;(?=[^;(){}]*\))", r"for (\1; 1;", None),
 ]
 
+def _static_local(m):
+    init = m.group(4)
+    if not re.search(r"[\w>\]]\s*\(|\.|->", init):      # compile-time constant: a plain static is the same in C
+        return m.group(0)
+    ty = " ".join((m.group(1) + " " + (m.group(2) or "")).replace("constexpr", "").split())
+    return "%s %s = (%s);" % (ty, m.group(3), init.strip())
+
+
+# function-local static initialised at run time: lowered to a plain local, i.e. the initialiser is evaluated by THIS call
+# ("first call" semantics).  That is exact when the initialiser reads only immutable facts; where a unit's environment model
+# knows that the value can change between calls, the unit lowers the declaration itself BEFORE this rule fires (unit rules
+# run first on `static`; example: specs/C15 -- a cached process mask is a stale mask).  Assumption A-STATIC in the evidence.
+STATIC_LOCAL_RULE = Sub(r"\bstatic\s+((?:const\s+|constexpr\s+)*(?:struct\s+)?[\w:<>]+(?:\s*[*&])?)\s+((?:const\s+)?)(\w+)\s*=\s*([^;{}]+);", _static_local, None)
+
 GENERIC_RULES = [
+    STATIC_LOCAL_RULE,
     DropStmt(r"\bPIKA_LOG", None),
     DropStmt(r"\bLTM_", None),
     DropStmt(r"\bLTHM_", None),
